@@ -9,6 +9,7 @@ meaning, including constraints over views and (half-)reified constraints.
 import Pumpkin.Spec.Basic
 import Pumpkin.Check.Oracle
 import Pumpkin.Model.PropagationChecks
+import Pumpkin.Model.AssignmentsEvents
 
 namespace Pumpkin.C01
 
@@ -78,5 +79,23 @@ theorem solution_is_fixed_fixpoint (n : Nat) (ps : List Pg.PropInst) (hw : ∀ p
 -- a violated constraint is detected at the full assignment, a satisfied one is not
 example : Pg.fixpoint [.div ⟨1, 0, 0⟩ ⟨1, 0, 1⟩ ⟨1, 0, 2⟩] (Pg.sing [-7, 2, -4]) = none := by decide
 example : Pg.fixpoint [.div ⟨1, 0, 0⟩ ⟨1, 0, 1⟩ ⟨1, 0, 2⟩] (Pg.sing [-7, 2, -3]) = some (Pg.sing [-7, 2, -3]) := by decide
+
+/-! ### propagators are woken by every change (`EventSink`)
+
+A propagator only runs when it is notified of a domain event of one of its variables; "every propagator
+detects violation once its variables are fixed" therefore needs every change to raise its event. In the
+model of the domain store (tied to the real `Assignments` incl. its event sink by the `asg`
+correspondence): -/
+
+/-- every real change of a domain raises at least one event, a moved lower / upper bound raises
+`LowerBound` / `UpperBound`, and `Assign` is raised exactly when the domain has become a single value —
+for every domain state (holes, bounds skipping over holes) and every predicate. -/
+theorem store_events_complete (d : Asg.IDom) (a : Atom) (l pos : Nat) (hc : Asg.St.changes d a = true) :
+    (Asg.Ev.lowerBound ∈ Asg.evAtom d (Asg.St.applyAtom d a l pos) a ↔ (Asg.St.applyAtom d a l pos).lb ≠ d.lb) ∧
+    (Asg.Ev.upperBound ∈ Asg.evAtom d (Asg.St.applyAtom d a l pos) a ↔ (Asg.St.applyAtom d a l pos).ub ≠ d.ub) ∧
+    (Asg.Ev.assign ∈ Asg.evAtom d (Asg.St.applyAtom d a l pos) a ↔
+      (Asg.St.applyAtom d a l pos).lb = (Asg.St.applyAtom d a l pos).ub) ∧
+    Asg.evAtom d (Asg.St.applyAtom d a l pos) a ≠ [] :=
+  Asg.events_complete d a l pos hc
 
 end Pumpkin.C01
